@@ -119,8 +119,9 @@ def _chunk(run, drv, rng, sc, start: int, count: int, focus: str, cli_budget: in
         files, main = g.program()
         expect = None
         trad = False
-        if focus == "C08" and rng.random() < 0.6:
-            m = F.mutate(rng, files, main)
+        if rng.random() < (0.6 if focus == "C08" else 0.3):
+            # C11 runs the mutants about visibility only: later / foreign / wrong-kind declarations must NOT be found
+            m = F.mutate(rng, files, main, None if focus == "C08" else F.RESOLUTION_KINDS)
             if m is None:
                 continue
             files, rule, vfile, vitem, trad = m
